@@ -249,6 +249,12 @@ def store (s : Index) (id : ItemId) (x : Vertex) : Index × Vid :=
             ids := id :: s.ids,
             next := v + 1 }, v)
 
+/-- `Metadata.Validate` (the first statement of `Hnsw.Insert`; the models of its callers test it
+before they call `insert`, which is the rest of `Hnsw.Insert`): what the snapshot format's length fields can hold (entry count and value
+length in 16 bits, key length in 8) -/
+def mdFits (m : Meta) : Bool :=
+  decide (m.length ≤ 65535) && m.all fun kv => decide (kv.1.utf8ByteSize ≤ 255) && decide (kv.2.utf8ByteSize ≤ 65535)
+
 def insert (s : Index) (id : ItemId) (vec : VecRef) (md : Meta) (level : Nat) : Except Err Index :=
   match s.live id with
   | some _ => .error .exists
